@@ -212,7 +212,7 @@ func TestC16(t *testing.T) {
 
 	// (A) Session: scripts x shapes x failure at every underlying write/flush operation
 	n := r.N(3000, 60000)
-	flushShapes := []string{"flusher", "flusherror", "both", "unwrap-flusher", "unwrap-flusherror", "unwrap2-both"}
+	flushShapes := []string{"flusher", "flusherror", "both", "unwrap-flusher", "unwrap-flusherror", "unwrap2-both", "unwrap12-flusherror", "unwrap40-flusher"}
 	for i := 0; i < n; i++ {
 		if !r.Mine("A", i) {
 			continue
@@ -344,6 +344,14 @@ func TestC16(t *testing.T) {
 		if hv != nil {
 			req.Header["Last-Event-Id"] = hv
 		}
+		reqCtxDone := rng.IntN(4) == 0
+		if reqCtxDone {
+			// the client is already gone when the handler runs: the obligations towards the
+			// response writer are the same
+			cctx, ccancel := context.WithCancel(req.Context())
+			ccancel()
+			req = req.WithContext(cctx)
+		}
 		prov := &recProvider{}
 		if subRefuses {
 			prov.subErr = errSubscribe
@@ -460,7 +468,7 @@ func TestC16(t *testing.T) {
 			for tg := range tags {
 				tl = append(tl, tg)
 			}
-			r.Violation(key, tl, map[string]any{"shape": shape, "header": hv, "on_session_mode": onMode, "subscribe_refuses": subRefuses, "provider_sends_first": sendsFirst, "first_flush_fails": firstFlushFails, "findings": msgs}, "C16: %s (+%d more)", fs[0].Msg, len(fs)-1)
+			r.Violation(key, tl, map[string]any{"shape": shape, "header": hv, "on_session_mode": onMode, "subscribe_refuses": subRefuses, "provider_sends_first": sendsFirst, "first_flush_fails": firstFlushFails, "request_context_done": reqCtxDone, "findings": msgs}, "C16: %s (+%d more)", fs[0].Msg, len(fs)-1)
 		}
 	}
 	// (D) Server.Publish without topics reaches the provider with [DefaultTopic]
